@@ -970,19 +970,19 @@ func Main(prop string) {
 		add("server/tls-only/d5", "server", c, 5, true, -1, 0)
 		add("channel/tls-only/d5", "channel", c, 5, true, -1, 0)
 	case "C09":
-		add("server/all/d3", "server", all, 3, false, 0, -1)
-		add("channel/all/d3", "channel", all, 3, false, 0, -1)
-		add("server/all/d4", "server", all, 4, true, -1, 0)
-		add("channel/all/d4", "channel", all, 4, true, -1, 0)
+		add("server/all/d4", "server", all, 4, false, 0, -1)
+		add("channel/all/d4", "channel", all, 4, false, 0, -1)
+		add("server/all/d6", "server", all, 6, true, -1, 0)
+		add("channel/all/d6", "channel", all, 6, true, -1, 0)
 	case "C14":
-		add("server/all/d3", "server", all, 3, true, 0, -1)
-		add("server/all/d4", "server", all, 4, true, -1, 0)
+		add("server/all/d4", "server", all, 4, true, 0, -1)
+		add("server/all/d6", "server", all, 6, true, -1, 0)
 		add("server/guest/d3/k1", "server", sel("guest/none"), 3, false, -1, 1)
 	default: // C03, C07
-		add("server/all/d3", "server", all, 3, false, 0, -1)
-		add("channel/all/d3", "channel", all, 3, false, 0, -1)
-		add("server/all/d4", "server", all, 4, true, -1, 0)
-		add("channel/all/d4", "channel", all, 4, true, -1, 0)
+		add("server/all/d4", "server", all, 4, false, 0, -1)
+		add("channel/all/d4", "channel", all, 4, false, 0, -1)
+		add("server/all/d6", "server", all, 6, true, -1, 0)
+		add("channel/all/d6", "channel", all, 6, true, -1, 0)
 		add("channel/guest+plain/d3/k1", "channel", sel("guest/none", "plain/none+tls"), 3, false, -1, 1)
 	}
 	harness.Main(harness.Check{
